@@ -143,10 +143,13 @@ void EpollFdEvent::reloadEpoll()
     }
 }
 
-void EpollFdEvent::OnEventCallback(uint32_t events, void *obj)
+void EpollFdEvent::OnEventCallback(uint32_t events, EpollLoop *loop, int fd)
 {
     RECORD_SCOPE();
-    EpollFdSharedData *d = static_cast<EpollFdSharedData*>(obj);
+    //! 前面的回调可能已经删除了该fd上最后一个FdEvent，此时共享数据已被释放
+    EpollFdSharedData *d = loop->findFdSharedData(fd);
+    if (d == nullptr)
+        return;
 
     short tbox_events = 0;
 
@@ -180,7 +183,7 @@ void EpollFdEvent::OnEventCallback(uint32_t events, void *obj)
         event->onEvent(tbox_events);
 
     if (events)
-        LogWarn("unhandle events:%08X, fd:%d", events, d->fd);
+        LogWarn("unhandle events:%08X, fd:%d", events, fd);
 }
 
 void EpollFdEvent::onEvent(short events)
